@@ -271,6 +271,83 @@ fn c12_o3_table_add_step() {
     assert!(!crate::verif_env::cut_reached(), "CUT: more distinct (ip, r) pairs than P has slots");
 }
 
+// ---- C12.O3g: what RoutingTable::add adds on top of KBucket::add ----
+static mut KB_CALLS: crate::verif_env::Ghost<usize> = crate::verif_env::ghost(103, 0);
+static mut KB_ID: crate::verif_env::Ghost<[u8; 4]> = crate::verif_env::ghost(104, [0; 4]);
+static mut KB_BUCKET: crate::verif_env::Ghost<usize> = crate::verif_env::ghost(105, 0);
+static mut KB_RET: crate::verif_env::Ghost<bool> = crate::verif_env::ghost(106, false);
+/// `KBucket::add` as a probe: which node was offered to which bucket; the verdict is a pre-drawn
+/// bit.  The bucket's own rules are the leaf obligations C12.O1 / O1b / O2.
+fn kbucket_add_probe(b: &mut KBucket, n: Node) -> bool {
+    unsafe {
+        KB_CALLS.v += 1;
+        let id = n.id().as_bytes();
+        KB_ID.v = [id[0], id[1], id[2], id[19]];
+        KB_BUCKET.v = b as *mut KBucket as usize;
+        std::mem::forget(n);
+        KB_RET.v
+    }
+}
+
+//@ ob: C12.O3g
+//@ tier: thorough
+//@ cap: 2400
+//@ standins: vcoll
+//@ also: C14
+//@ desc: what RoutingTable::add does before it hands a node to its bucket: the table's own id is never offered to a bucket; a node that conflicts with an entry of ANOTHER id under the per-IP rule (same IP and that entry is insecure, or shares the 21-bit prefix) is refused without touching any bucket -- also when the incoming id is already known (a known id re-appearing from another IP does not bypass the Sybil rule); an entry with the SAME id is not a conflict (refresh on contact, C14.O1); otherwise the node is offered exactly once, unchanged, to the bucket stored under its distance to the table id, and add returns that bucket's verdict
+//@ bounds: table id all-zero; 2 entries in distance class 160 with ids [0x80|b0,b1,b2,..,r] and IPs from {8.8.8.8, 1.2.3.4} satisfying Inv; incoming id bytes 0,1,2,19 symbolic (any distance class 153..160, or the table's own id), IP from the same set; bucket verdict symbolic; unwind 21
+//@ inv: ids pairwise distinct; per IP <= 1 insecure entry and no two secure entries with equal 21-bit prefix
+//@ stubs: KBucket::add -> probe recording (node, bucket) with a pre-drawn verdict (bucket rules: C12.O1/O1b/O2); Node::is_secure -> uninterpreted predicate (see C12.O3); std::time::Instant::now -> symbolic clock
+//@ functions: RoutingTable::add (self check, table-wide per-IP scan, bucket selection), Node::already_exists, Id::distance
+#[kani::proof]
+#[kani::stub(std::time::Instant::now, clock::now)]
+#[kani::stub(crate::common::node::Node::is_secure, crate::verif_env::ufs::is_secure)]
+#[kani::stub(KBucket::add, kbucket_add_probe)]
+#[kani::unwind(21)]
+fn c12_o3g_table_add_glue() {
+    crate::verif_env::ufs::arm(kani::any());
+    clock::set(0);
+    let n1 = any_public_node_160();
+    let n2 = any_public_node_160();
+    kani::assume(pair_ok(&n1, &n2));
+    let mut rt = direct_table(vec![n1.clone(), n2.clone()]);
+    let mut a = [0u8; 20];
+    a[0] = kani::any();
+    a[1] = kani::any();
+    a[2] = kani::any();
+    a[19] = kani::any();
+    let ip = if kani::any() { [8, 8, 8, 8] } else { [1, 2, 3, 4] };
+    let inc = Node::new(Id::from(a), SocketAddrV4::new(ip.into(), 6881));
+    let verdict: bool = kani::any();
+    unsafe { KB_RET.v = verdict };
+    let d = rt.id().distance(inc.id());
+    let conflict1 = inc.id() != n1.id() && inc.already_exists(std::slice::from_ref(&n1));
+    let conflict2 = inc.id() != n2.id() && inc.already_exists(std::slice::from_ref(&n2));
+    let known = inc.id() == n1.id() || inc.id() == n2.id();
+    let r = rt.add(inc.clone());
+    let calls = unsafe { KB_CALLS.v };
+    if d == 0 {
+        assert!(!r && calls == 0, "C12.O3 table never contains its own id");
+    } else if conflict1 || conflict2 {
+        assert!(!r && calls == 0, "C12.O3 a node that breaks the per-IP Sybil limit against another entry is refused before any bucket is touched");
+    } else {
+        assert!(calls == 1, "C12.O3 an acceptable node is offered to exactly one bucket");
+        assert!(unsafe { KB_ID.v } == [a[0], a[1], a[2], a[19]], "C12.O3 the node offered to the bucket is the incoming node");
+        let at = match rt.buckets.get(&d) {
+            Some(b) => b as *const KBucket as usize,
+            None => 0,
+        };
+        assert!(at != 0 && at == unsafe { KB_BUCKET.v }, "C12.O3 entry sits in the bucket of its distance");
+        assert!(r == verdict, "C12.O3 add returns its bucket's verdict");
+    }
+    kani::cover!(d == 0);
+    kani::cover!(d != 0 && known && (conflict1 || conflict2));
+    kani::cover!(d != 0 && !known && (conflict1 || conflict2));
+    kani::cover!(d != 0 && known && !conflict1 && !conflict2);
+    kani::cover!(d != 0 && d < 160 && !conflict1 && !conflict2);
+    std::mem::forget(rt);
+}
+
 //@ ob: C14.O1
 //@ tier: thorough
 //@ cap: 1500
